@@ -48,7 +48,7 @@ PROBES = ["sampler_reenter_fired", "wide_result", "interrupt_fired", "sampler_ra
           "builtin_string", "group_absent_in_resample", "nan_entry", "divisor_zero", "ci_checked", "single_group", "scalar_threshold",
           "non_default_pos_label", "bca", "bc", "quantile"]
 
-ALPHABET = ["a", "b", "a_b", "b_c", "a_", "_", "x y", "ß", "", "ab", "A", "c", "b_", "_a"]
+ALPHABET = ["a", "b", "a_b", "b_c", "a_", "_", "x y", "ß", "", "ab", "A", "c", "b_", "_a", "a ", " a", "b\t"]
 METRICS = ["pop", "accuracy", "error_rate", "tp", "tn", "fp", "fn", "p", "n", "top", "ton", "tpr", "tnr", "fpr", "fnr", "tar", "frr",
            "trr", "far", "topr", "tonr", "acceptance_rate", "rejection_rate", "ppv", "npv", "fdr", "for_", "class_accuracy", "class_error_rate"]
 
